@@ -531,8 +531,13 @@ func (p *Parser) parseDict() (core.Object, error) {
 
 	dict := make(core.Dict)
 
-	for p.pos < len(p.data) {
+	for {
 		p.skipWhitespace()
+
+		// The stream may end inside the dictionary (truncated or damaged data)
+		if p.pos >= len(p.data) {
+			return nil, fmt.Errorf("unclosed dictionary")
+		}
 
 		if p.pos+1 < len(p.data) && p.data[p.pos] == '>' && p.data[p.pos+1] == '>' {
 			p.pos += 2
